@@ -207,7 +207,7 @@ theorem WF_local (F : Flags) (o : Obs) (x : Act) (ev : Ev) (y : Act) (eff : Eff)
 activations waited for have returned successfully, no dedup key is registered -/
 def freeObs : Obs :=
   { capFree := true, cancelled := fun _ => false, deps := fun _ => some [], callKid := fun _ => some .ok,
-    registered := fun _ => false, execResult := fun _ => some {} }
+    registered := fun _ => false, cyc := fun _ => false, execResult := fun _ => some {} }
 
 /-- an event the activation can perform next (under `freeObs`) -/
 def someEv (F : Flags) (x : Act) : Ev :=
@@ -351,14 +351,14 @@ theorem wait_callReturned (F : Flags) (o : Obs) (x : Act) (i : Nat) (d : Bool) (
     obtain ⟨_, c, cs, hc, _⟩ := hw.rest (by rw [hp]; rfl)
     simp only [stepLocal, hp, hc]; cases o.capFree <;> simp
 
-/-- `startExecution`: either `depsRelease` (`run: always`) or, for every key, one of
-`register` / `waiter` is accepted -/
+/-- `startExecution`: either `depsRelease` (`run: always`) or, for every key, exactly one of
+`register` / `waiter` / `waitCycle` is accepted -/
 theorem acquired_enabled (F : Flags) (o : Obs) (x : Act) (k : Nat) (hp : x.phase = .acquired) :
     (stepLocal F o x (if x.def_.run = .always then .depsRelease
-      else if o.registered k then .waiter k else .register k)).isSome = true := by
+      else if o.registered k then (if o.cyc k then .waitCycle k else .waiter k) else .register k)).isSome = true := by
   by_cases hr : x.def_.run = .always
   · simp [stepLocal, hp, hr]
-  · cases hk : o.registered k <;> simp [stepLocal, hp, hr, hk]
+  · cases hk : o.registered k <;> cases hc : o.cyc k <;> simp [stepLocal, hp, hr, hk, hc]
 
 /-- in every other phase but `done` the event `someEv` is accepted whatever the rest of
 the configuration looks like (`acquired`: see `acquired_enabled`; `depsJoined`: `depsDone`
